@@ -715,15 +715,18 @@ class MemorizedFunc(Logger):
         # also renders us robust to variations of the files when the
         # in-memory version of the code does not vary
         try:
-            if self.func in _FUNCTION_HASHES:
+            # A single lookup: another thread may empty the in-memory store
+            # (Memory.clear) at any time.
+            stored_func_hash = _FUNCTION_HASHES.get(self.func)
+            if stored_func_hash is not None:
                 # We use as an identifier the id of the function and its
                 # hash. This is more likely to falsely change than have hash
                 # collisions, thus we are on the safe side.
                 func_hash = self._hash_func()
-                if func_hash == _FUNCTION_HASHES[
-                    self.func
-                ] and func_hash == _LAST_FUNC_CODE_WRITERS.get(
-                    self._func_code_key()
+                if (
+                    func_hash == stored_func_hash
+                    and func_hash
+                    == _LAST_FUNC_CODE_WRITERS.get(self._func_code_key())
                 ):
                     return True
         except TypeError:
